@@ -1,6 +1,7 @@
 import Syzgy.Lemmas.LshSound
 import Syzgy.Lemmas.LshComplete
 import Syzgy.Lemmas.LshLeaf
+import Syzgy.Lemmas.LshRun
 /-!
 # C04 — approximate search is sound
 -/
@@ -48,6 +49,20 @@ theorem single_leaf_equals_exact (searchK K maxRadius : Nat) (hK : 0 < K) (hsK :
     (search searchK K 0 maxRadius (leaves.map Tree.leaf) lookup hpDist hpRight).1.map (·.dist) =
       (exactKnn K (order.map cand)).map (·.dist) :=
   single_leaf_exact searchK K maxRadius hK hsK leaves hne live hnd hperm lookup cand hlk hpDist hpRight order ho
+
+/-- **a collection that never held more than `threshold` documents has one leaf per tree**: for every history
+    of AddDocument / UpdateDocument / removal during which the number of live documents stays within the
+    leaf threshold (100 in the code, regenerated fact `lsh_parameters`), each tree of the index is a single
+    leaf listing exactly the live ids — the hypothesis of `single_leaf_equals_exact` -/
+theorem small_collection_has_single_leaves {V : Type} (threshold : Nat) (side : H → V → Bool) (choose : List Nat → Option H)
+    (ops : List (IOp V))
+    (hsm : SmallRun threshold side choose { store := fun _ => none, live := [], tree := .leaf [] } ops) :
+    ∃ s' ids, irun threshold side choose { store := fun _ => none, live := [], tree := .leaf [] } ops = .ok s' ∧
+      s'.tree = .leaf ids ∧ ids.Perm s'.live ∧ s'.live.Nodup ∧ (∀ i, i ∈ s'.live ↔ s'.store i ≠ none) := by
+  have h0 : IInv side ({ store := fun _ => none, live := [], tree := .leaf [] } : IState V) :=
+    ⟨⟨List.Perm.refl _, trivial, by simp⟩, List.nodup_nil, fun i => by simp⟩
+  obtain ⟨s', ids, e, h, hl, hp⟩ := small_run_single_leaf threshold side choose ops _ h0 [] rfl hsm
+  exact ⟨s', ids, e, hl, hp, h.nodup, h.exact⟩
 
 /-- the distances of an exact K-nearest answer do not depend on the order the documents are visited in -/
 theorem exact_answer_is_order_independent (K : Nat) (c1 c2 : List Cand) (hp : c1.Perm c2) :
